@@ -4,7 +4,7 @@
 From Coq Require Import Permutation.
 From Verif Require Import Base.Lex Region.Model Region.Ord Region.ProofsContains Region.ProofsGroup Region.ProofsInsert
   Region.ProofsMerge Region.ProofsGap Region.ProofsPhase1 Region.ProofsPhase2
-  Region.Converge Region.ProofsConvA Region.ProofsConvB Region.ProofsConvC Region.PdCodec Region.ProofsBucket Region.Peers.
+  Region.Converge Region.ProofsConvA Region.ProofsConvB Region.ProofsConvC Region.PdCodec Region.ProofsBucket Region.Peers Region.ProofsBudget.
 Open Scope N_scope.
 
 (* ---- containment ---- *)
@@ -187,6 +187,23 @@ Theorem C09_converges_inv_insert : forall truth c r T,
     (forall x, In x (c_sorted c') -> x = inherit r deleted \/ In x (c_sorted c)).
 Proof. intros truth c r T H. exact (insert_truth truth H c r T). Qed.
 Print Assumptions C09_converges_inv_insert.
+
+(* ---- the situations without convergence (leader store down, leaderless region, PD stale or silent) ---- *)
+(* whatever PD answers — nothing, gaps, leaderless regions, stale descriptions — a lookup consults PD at most [budget]
+   times (every retry of loadRegion / scanRegions / batchScanRegions is preceded by a back-off that is charged to the
+   budget) and then returns an error; with the budget used up a cache miss is an error and the cache is untouched *)
+Theorem C09_lookup_pd_bounded : forall pd budget fuel t c key is_end r c' t',
+  find_region_by_key pd budget fuel t c key is_end = (r, c', t') -> (t <= t' <= Nat.max t budget)%nat.
+Proof. exact find_region_by_key_bounded. Qed.
+Print Assumptions C09_lookup_pd_bounded.
+Theorem C09_scan_pd_bounded : forall pd budget fuel t q rs limit nl r t',
+  scan_loop pd budget fuel t q rs limit nl = (r, t') -> (t <= t' <= Nat.max t budget)%nat.
+Proof. exact scan_loop_bounded. Qed.
+Print Assumptions C09_scan_pd_bounded.
+Theorem C09_lookup_error_surfaces : forall pd budget fuel t c key is_end, (budget <= t)%nat -> (0 < fuel)%nat ->
+  search (c_sorted c) key is_end = None -> find_region_by_key pd budget fuel t c key is_end = (Err 1, c, t).
+Proof. exact find_region_by_key_exhausted. Qed.
+Print Assumptions C09_lookup_error_surfaces.
 
 (* ---- through pd_codec.go (txn mode) ---- *)
 (* [codec_pd raw] is the PD the cache sees behind CodecPDClient: requests memcomparable-encoded (C19's encode_bytes),
